@@ -1,44 +1,264 @@
 import Mltwist.Model.Const
 import Mltwist.Spec.Gadgets
 /-
-Helper lemmas for C27.  (Proofs to be supplied.)
+Helper lemmas for C27.
 -/
 namespace Mltwist.Lemmas.Const
 open Mltwist
 
+theorem pow8_succ (w : Nat) : 2 ^ (8 * (w + 1)) = 256 * 2 ^ (8 * w) := by
+  rw [Nat.mul_succ, Nat.pow_add]; omega
+
 theorem natToLE_length (w x : Nat) : (natToLE w x).length = w := by
-  sorry
+  induction w generalizing x with
+  | zero => rfl
+  | succ w ih => simp [natToLE, ih]
 
 theorem leToNat_natToLE (w x : Nat) : leToNat (natToLE w x) = x % 2 ^ (8 * w) := by
-  sorry
+  induction w generalizing x with
+  | zero => simp [natToLE, leToNat, Nat.mod_one]
+  | succ w ih =>
+    simp only [natToLE, leToNat, ih, pow8_succ, UInt8.toNat_ofNat']
+    rw [Nat.mod_mul]
+    omega
 
 theorem leToNat_lt (bs : List UInt8) : leToNat bs < 2 ^ (8 * bs.length) := by
-  sorry
+  induction bs with
+  | nil => simp [leToNat]
+  | cons b bs ih =>
+    simp only [leToNat, List.length_cons, pow8_succ]
+    have := b.toNat_lt
+    omega
+
+theorem natToLE_zero (w : Nat) : natToLE w 0 = List.replicate w 0 := by
+  induction w with
+  | zero => rfl
+  | succ w ih => simp [natToLE, ih, List.replicate_succ]
+
+theorem natToLE_leToNat_gen (w : Nat) (bs : List UInt8) :
+    natToLE w (leToNat bs) = bs.take w ++ List.replicate (w - bs.length) 0 := by
+  induction w generalizing bs with
+  | zero => simp [natToLE]
+  | succ w ih =>
+    cases bs with
+    | nil => simp [leToNat, natToLE_zero]
+    | cons b bs =>
+      have hb := b.toNat_lt
+      have h1 : (b.toNat + 256 * leToNat bs) % 256 = b.toNat := by omega
+      have h2 : (b.toNat + 256 * leToNat bs) / 256 = leToNat bs := by omega
+      simp [natToLE, leToNat, h1, h2, ih]
 
 theorem natToLE_leToNat (bs : List UInt8) : natToLE bs.length (leToNat bs) = bs := by
-  sorry
+  simp [natToLE_leToNat_gen]
 
 theorem newConstUint_spec (val w : Nat) :
     Const.newConstUint val w = if val < 2 ^ (8 * w) then some (natToLE w val) else none := by
-  sorry
+  have h : (256 : Nat) ^ w = 2 ^ (8 * w) := by rw [Nat.pow_mul]
+  unfold Const.newConstUint
+  rw [h]
+  have hp : 0 < 2 ^ (8 * w) := Nat.pow_pos (by omega)
+  by_cases hv : val < 2 ^ (8 * w)
+  · simp [hv, Nat.div_eq_of_lt hv]
+  · have : 0 < val / 2 ^ (8 * w) := Nat.div_pos (by omega) hp
+    simp [hv, this]
+
+theorem newConst_spec (b : List UInt8) (w : Nat) :
+    Const.newConst b w = natToLE w (leToNat b) := by
+  rw [natToLE_leToNat_gen]
+  unfold Const.newConst Expreval.setWidth
+  split
+  · next h => simp [Nat.sub_eq_zero_of_le h]
+  · next h => rw [List.take_of_length_le (by omega)]
+
+theorem withWidth_spec (bs : List UInt8) (w : Nat) :
+    Const.withWidth bs w = natToLE w (leToNat bs) := by
+  unfold Const.withWidth
+  split
+  · next h => rw [← h, natToLE_leToNat]
+  · split
+    · next h => rw [natToLE_leToNat_gen]; simp [Nat.sub_eq_zero_of_le (Nat.le_of_lt h)]
+    · exact newConst_spec bs w
+
+
+/-! ### `NewConstInt` -/
+
+theorem intLoop_succ (w : Nat) (v : Int) : Const.intLoop (w + 1) v =
+   (UInt8.ofNat (v % 256).toNat :: (Const.intLoop w (v / 256)).1, (Const.intLoop w (v / 256)).2) := by
+  rw [Const.intLoop]
+
+theorem intLoop_inv (w : Nat) (v : Int) :
+    (Const.intLoop w v).1.length = w ∧
+      (leToNat (Const.intLoop w v).1 : Int) + (2 ^ (8 * w) : Nat) * (Const.intLoop w v).2 = v := by
+  induction w generalizing v with
+  | zero => simp [Const.intLoop, leToNat]
+  | succ w ih =>
+    obtain ⟨h1, h2⟩ := ih (v / 256)
+    rw [intLoop_succ]
+    simp only [List.length_cons, h1, leToNat, pow8_succ, UInt8.toNat_ofNat', true_and]
+    generalize (Const.intLoop w (v / 256)).2 = r at h2 ⊢
+    generalize leToNat (Const.intLoop w (v / 256)).1 = n at h2 ⊢
+    generalize 2 ^ (8 * w) = M at h2 ⊢
+    rw [Int.natCast_mul, Int.mul_assoc]
+    generalize (M : Int) * r = t at h2 ⊢
+    omega
+
+theorem leToNat_top (bs : List UInt8) (hne : bs ≠ []) :
+    ∃ lo, lo < 2 ^ (8 * (bs.length - 1)) ∧
+      leToNat bs = lo + 2 ^ (8 * (bs.length - 1)) * (bs.getLast?.getD 0).toNat := by
+  induction bs with
+  | nil => exact absurd rfl hne
+  | cons b bs ih =>
+    cases bs with
+    | nil => exact ⟨0, by simp [leToNat]⟩
+    | cons c rest =>
+      obtain ⟨lo, hlo, heq⟩ := ih (by simp)
+      refine ⟨b.toNat + 256 * lo, ?_, ?_⟩
+      · have := b.toNat_lt
+        simp only [List.length_cons, Nat.add_sub_cancel] at hlo ⊢
+        rw [pow8_succ]; omega
+      · rw [List.getLast?_cons_cons, leToNat, heq]
+        simp only [List.length_cons, Nat.add_sub_cancel]
+        rw [pow8_succ, Nat.mul_add, Nat.mul_assoc]
+        omega
 
 theorem newConstInt_spec (val : Int) (w : Nat) (hw : 1 ≤ w) :
     Const.newConstInt val w =
       if -(2 ^ (8 * w - 1) : Int) ≤ val ∧ val < (2 ^ (8 * w - 1) : Int)
       then some (natToLE w (Spec.ofInt w val)) else none := by
-  sorry
+  obtain ⟨w', rfl⟩ : ∃ w', w = w' + 1 := ⟨w - 1, by omega⟩
+  obtain ⟨hlen, hval⟩ := intLoop_inv (w' + 1) val
+  unfold Const.newConstInt
+  generalize Const.intLoop (w' + 1) val = p at hlen hval
+  obtain ⟨bs, rest⟩ := p
+  simp only at hlen hval ⊢
+  have hne : bs ≠ [] := by intro h; simp [h] at hlen
+  obtain ⟨lo, hlo, htop⟩ := leToNat_top bs hne
+  have hlt := leToNat_lt bs
+  rw [hlen] at hlt
+  rw [hlen, Nat.add_sub_cancel] at hlo htop
+  have hbs : natToLE (w' + 1) (leToNat bs) = bs := by rw [← hlen]; exact natToLE_leToNat bs
+  have hH : (2 : Int) ^ (8 * (w' + 1) - 1) = ((128 * 2 ^ (8 * w') : Nat) : Int) := by
+    have : 8 * (w' + 1) - 1 = 8 * w' + 7 := by omega
+    have e : ((2 ^ (8 * w') : Nat) : Int) = (2 : Int) ^ (8 * w') := Int.natCast_pow 2 _
+    rw [this, Int.pow_add, Int.natCast_mul, e]; omega
+  have hofInt : Spec.ofInt (w' + 1) val = leToNat bs := by
+    unfold Spec.ofInt Spec.M
+    rw [← hval, Int.add_mul_emod_self_left,
+      Int.emod_eq_of_lt (Int.natCast_nonneg _) (Int.ofNat_lt.mpr hlt)]
+    simp
+  rw [hofInt, hbs, hH]
+  rw [pow8_succ] at hval hlt
+  generalize (bs.getLast?.getD 0).toNat = top at htop ⊢
+  generalize leToNat bs = n at *
+  generalize hP : 2 ^ (8 * w') = P at *
+  have hPpos : 0 < P := by rw [← hP]; exact Nat.pow_pos (by omega)
+  have e256 : ((256 : Nat) : Int) = 256 := rfl
+  have e128 : ((128 : Nat) : Int) = 128 := rfl
+  rw [Int.natCast_mul, e256, Int.mul_assoc] at hval
+  rw [Int.natCast_mul, e128]
+  by_cases h0 : rest = 0
+  · subst h0
+    by_cases ht : top < 128
+    · have : P * top ≤ P * 127 := Nat.mul_le_mul_left P (by omega)
+      have hc : (-(128 * (P : Int)) ≤ val ∧ val < 128 * (P : Int)) := by omega
+      simp [ht, hc]
+    · have : P * 128 ≤ P * top := Nat.mul_le_mul_left P (by omega)
+      have hc : ¬ (-(128 * (P : Int)) ≤ val ∧ val < 128 * (P : Int)) := by omega
+      simp [ht, hc]
+  · by_cases h1 : rest = -1
+    · subst h1
+      by_cases ht : top < 128
+      · have : P * top ≤ P * 127 := Nat.mul_le_mul_left P (by omega)
+        have hc : ¬ (-(128 * (P : Int)) ≤ val ∧ val < 128 * (P : Int)) := by omega
+        simp [ht, hc]
+      · have : P * 128 ≤ P * top := Nat.mul_le_mul_left P (by omega)
+        have hc : (-(128 * (P : Int)) ≤ val ∧ val < 128 * (P : Int)) := by omega
+        simp [ht, hc]
+    · have hc : ¬ (-(128 * (P : Int)) ≤ val ∧ val < 128 * (P : Int)) := by
+        rcases (by omega : rest ≥ 1 ∨ rest ≤ -2) with hr | hr
+        · have := Int.mul_le_mul_of_nonneg_left hr (by omega : (0 : Int) ≤ P)
+          omega
+        · have := Int.mul_le_mul_of_nonneg_left hr (by omega : (0 : Int) ≤ P)
+          omega
+      simp [h0, h1, hc]
+
+
+/-! ### `ConstUint` -/
+
+theorem leToNat_append (l₁ l₂ : List UInt8) :
+    leToNat (l₁ ++ l₂) = leToNat l₁ + 2 ^ (8 * l₁.length) * leToNat l₂ := by
+  induction l₁ with
+  | nil => simp [leToNat]
+  | cons b l ih =>
+    simp only [List.cons_append, leToNat, ih, List.length_cons, pow8_succ]
+    rw [Nat.mul_add, Nat.mul_assoc]; omega
+
+theorem leToNat_replicate_zero (n : Nat) : leToNat (List.replicate n 0) = 0 := by
+  induction n with
+  | zero => rfl
+  | succ n ih => simp [List.replicate_succ, leToNat, ih]
+
+theorem leToNat_take (bs : List UInt8) (k : Nat) :
+    leToNat (bs.take k) = leToNat bs % 2 ^ (8 * k) := by
+  rw [← leToNat_natToLE, natToLE_leToNat_gen, leToNat_append, leToNat_replicate_zero]; simp
+
+theorem leToNat_reverse_dropWhile (r : List UInt8) :
+    leToNat (r.dropWhile (· == 0)).reverse = leToNat r.reverse := by
+  induction r with
+  | nil => rfl
+  | cons x r ih =>
+    rw [List.dropWhile_cons]
+    split
+    · next h =>
+      have hx : x = 0 := by simpa using h
+      subst hx
+      rw [ih, List.reverse_cons, leToNat_append]; simp [leToNat]
+    · rfl
 
 theorem constUint_spec (size : Nat) (bs : List UInt8) (hs : 1 ≤ size) (hb : bs ≠ []) :
     Const.constUint size bs =
       (leToNat bs % 2 ^ (8 * size), decide (leToNat bs < 2 ^ (8 * size))) := by
-  sorry
-
-theorem withWidth_spec (bs : List UInt8) (w : Nat) :
-    Const.withWidth bs w = natToLE w (leToNat bs) := by
-  sorry
-
-theorem newConst_spec (b : List UInt8) (w : Nat) :
-    Const.newConst b w = natToLE w (leToNat b) := by
-  sorry
+  have _ := hb
+  unfold Const.constUint Const.nonzeroUpperIdx
+  have hrev := leToNat_reverse_dropWhile bs.reverse
+  rw [List.reverse_reverse] at hrev
+  have hnn := List.head_dropWhile_not (· == (0 : UInt8)) (l := bs.reverse)
+  generalize bs.reverse.dropWhile (· == 0) = l at hrev hnn
+  simp only [leToNat_take]
+  have hone : 2 ^ (8 * 1) ≤ 2 ^ (8 * size) := Nat.pow_le_pow_right (by omega) (by omega)
+  cases l with
+  | nil =>
+    have h0 : leToNat bs = 0 := by rw [← hrev]; rfl
+    have hp : 0 < 2 ^ (8 * size) := Nat.pow_pos (by omega)
+    simp only []
+    rw [if_neg (by omega), h0]
+    simp [hp]
+  | cons x l =>
+    have hx : x ≠ 0 := by simpa using hnn (by simp)
+    have hx' : 1 ≤ x.toNat := by
+      rcases Nat.eq_zero_or_pos x.toNat with h | h
+      · exact absurd (UInt8.toNat_inj.mp (by simpa using h)) hx
+      · exact h
+    have hlt := leToNat_lt (x :: l).reverse
+    rw [List.reverse_cons, leToNat_append] at hrev
+    simp only [List.length_reverse, List.length_cons, leToNat, Nat.mul_zero, Nat.add_zero] at hrev hlt
+    simp only [List.length_cons, Nat.add_sub_cancel]
+    have hge : 2 ^ (8 * l.length) ≤ leToNat bs := by
+      rw [← hrev]
+      have := Nat.mul_le_mul_left (2 ^ (8 * l.length)) hx'
+      omega
+    rw [List.reverse_cons, leToNat_append] at hlt
+    simp only [List.length_reverse, leToNat, Nat.mul_zero, Nat.add_zero] at hlt
+    rw [hrev] at hlt
+    split
+    · next h =>
+      have : 2 ^ (8 * size) ≤ 2 ^ (8 * l.length) := Nat.pow_le_pow_right (by omega) (by omega)
+      have hnl : ¬ leToNat bs < 2 ^ (8 * size) := by omega
+      simp [hnl]
+    · next h =>
+      have : 2 ^ (8 * (l.length + 1)) ≤ 2 ^ (8 * size) := Nat.pow_le_pow_right (by omega) (by omega)
+      have hl : leToNat bs < 2 ^ (8 * size) := by omega
+      rw [Nat.mod_eq_of_lt hlt, Nat.mod_eq_of_lt hl]
+      simp [hl]
 
 end Mltwist.Lemmas.Const
